@@ -31,12 +31,13 @@
 EXTENDS Naturals, FiniteSets, Sequences, TLC, TLCExt, Json
 
 CONSTANTS
-    Target,       \* "classic" | "oneof" | "param" | "uijson"
+    Target,       \* "classic" | "oneof" | "param" | "form" | "uijson"
     Kinds,        \* form kinds (classic) or parameter kinds (param) explored
     VaryGroup,    \* classic: enumerate the group / groupOptional / group-enabled switches
     VaryDep,      \* classic: enumerate the dependency / dependencyType / state / kind switches
     ValueSet,     \* "probe" | "machine" | "all"
-    Entries,      \* classic: subset of {"Load", "SetKey", "SetAll", "Check", "CheckOne"} ; param: subset of {"parameter", "form", "pool"}
+    Entries,      \* classic: subset of {"Load", "Prime", "SetKey", "SetAll", "Check", "CheckOne"} ;
+                  \* param: subset of {"parameter", "form", "pool"}
     MaxDepth,
     Deviations
 
@@ -60,7 +61,7 @@ Class(v) ==
       [] v \in {"EntData", "EntOther", "EntObj", "EntObjB", "EntGroup", "EntForeign", "EntForeignObj",
                 "EntInt", "EntCurve"} -> "Entity"
       [] v \in {"Pg3D", "PgMulti", "PgOther"} -> "PGroup"
-      [] v = "ListStr" -> "List"
+      [] v \in {"ListStr", "ListInt"} -> "List"
       [] v = "Ws" -> "Workspace"
 
 \* what an identifier-like value designates
@@ -88,6 +89,8 @@ PgTypeOf(r) == CASE r \in {"pg3d", "pgother"} -> "3D vector" [] r = "pgmulti" ->
 
 \* Python's isinstance: bool is a subclass of int
 TypeNames(v) == IF Class(v) = "Bool" THEN {"Bool", "Int"} ELSE {Class(v)}
+\* type of the items of a list value: ListInt = [42], ListStr = ["a", "b"]
+ElemTypeNames(v) == IF v = "ListInt" THEN {"Int"} ELSE {"Str"}
 
 \* ============================================================== DECLARED: classic forms
 \* ---- which forms need a value (docstring of requires_value, ui_json/utils.py:124-137; params.rst:13-24)
@@ -99,7 +102,10 @@ TypeNames(v) == IF Class(v) = "Bool" THEN {"Bool", "Int"} ELSE {Class(v)}
 \*  require a value, the return value is either True, or will take on the enabled state if the dependent
 \*  parameter is optional."  (utils.py:89-91)
 \* depState = the dependency is checked (value true of a boolean form / enabled of an optional form,
-\* params.rst:21-24).
+\* params.rst:21-24).  A boolean form that is not optional is a plain checkbox: its state is its value,
+\* whatever "enabled" member it carries (Geoscience ANALYST writes "enabled": true on plain forms, set_enabled
+\* stamps the group's state on every member of an optional group, utils.py:185-194); the switch "den"
+\* (absent / on / off) enumerates that member and RequiresValue does not depend on it.
 DependencyRequires(dependencyType, depState) ==
     IF dependencyType = "enabled" THEN depState ELSE ~depState
 RequiresValue(group, groupOptional, groupEnabled, dependency, dependencyType, depState, optional, enabled) ==
@@ -170,7 +176,9 @@ PromoteFails(v) == v = "UidBogus"         \* _uid_promotion: association_validat
 \* validator chain (validation.py:249-267); each conjunct is one validator class of shared/validators.py
 RunChain(t, v, dv) ==
     /\ ~(v = "None" /\ ~t.optional)                                            \* OptionalValidator :158
-    /\ TypeNames(v) \cap t.types # {}                                          \* TypeValidator :302-307
+    /\ IF Class(v) = "List" /\ "List" \notin t.types                          \* TypeValidator :299-307: a list is
+       THEN ElemTypeNames(v) \cap t.types # {}                                \* checked item by item unless list is
+       ELSE TypeNames(v) \cap t.types # {}                                    \* itself a declared type
     /\ (t.uuid /\ Class(v) = "Str") => Ref(v) # "none"                         \* UUIDValidator :323-327
     /\ (t.assoc # "none") =>                                                   \* AssociationValidator :195-212
           CASE Class(v) \in {"Uuid", "Entity", "PGroup"} -> Member(t.assoc, Ref(v))
@@ -189,6 +197,10 @@ DefaultRaw(k) ==
       [] k = "group" -> "UidGroup" [] k = "data" -> "UidData" [] k = "pgroup" -> "UidPg3D"
       [] k = "datavalue" -> "Float"
 BadValue(k) == IF k \in {"string", "file", "choice"} THEN "Int" ELSE "Str"
+\* a list is never a value of a single-select form (type clause).  Enumerated where no reading of the code's
+\* item-by-item rule (validators_test.py::test_type_validator) could make it acceptable: items of a type the
+\* form does not declare.  ["a","b"] on string forms, [42] on integer / data-or-value forms are not enumerated.
+ListBad(k) == CASE k \in {"integer", "float", "bool"} -> {"ListStr"} [] k = "datavalue" -> {} [] OTHER -> {"ListInt"}
 
 IdValues == {"SidData", "SidOther", "SidBogus", "UidData", "UidOther", "UidObj", "UidBogus",
              "EntData", "EntOther", "EntObj", "EntForeign", "Pg3D"}
@@ -196,12 +208,13 @@ ClassicValues(k) ==
     LET common == {"None", "True", "Int", "Float", "Str", "Choice"} IN
     IF ValueSet = "probe" THEN {"None", DefaultRaw(k), BadValue(k)}
     ELSE IF ValueSet = "machine"
-    THEN {"None", DefaultRaw(k), BadValue(k)} \cup
+    THEN {"None", DefaultRaw(k), BadValue(k)} \cup ListBad(k) \cup
          (CASE k \in {"object", "group"} -> {"SidBogus", "UidBogus", "EntData"}
             [] k \in {"data", "datavalue"} -> {"SidOther", "UidOther", "EntData"}
             [] k = "pgroup" -> {"Pg3D", "PgMulti"}
             [] OTHER -> {})
-    ELSE CASE k \in {"object", "group"} -> common \cup IdValues \cup {"SidObj", "UidGroup", "EntGroup"}
+    ELSE ListBad(k) \cup
+         CASE k \in {"object", "group"} -> common \cup IdValues \cup {"SidObj", "UidGroup", "EntGroup"}
            [] k \in {"data", "datavalue"} -> common \cup IdValues
            [] k = "pgroup" -> common \cup {"UidPg3D", "UidPgMulti", "UidData", "UidBogus",
                                            "Pg3D", "PgMulti", "PgOther", "EntData"}
@@ -209,12 +222,15 @@ ClassicValues(k) ==
 
 GroupParts == {[group |-> FALSE, gopt |-> FALSE, gen |-> TRUE]} \cup
               (IF VaryGroup THEN [group : {TRUE}, gopt : B, gen : B] ELSE {})
-DepParts == {[dep |-> FALSE, dtype |-> "enabled", dstate |-> TRUE, dkind |-> "bool"]} \cup
+DepParts == {[dep |-> FALSE, dtype |-> "enabled", dstate |-> TRUE, dkind |-> "bool", den |-> "absent"]} \cup
             (IF VaryDep THEN [dep : {TRUE}, dtype : {"enabled", "disabled"}, dstate : B,
-                              dkind : {"bool", "optional"}] ELSE {})
+                              dkind : {"bool"}, den : {"absent", "on", "off"}]
+                             \cup [dep : {TRUE}, dtype : {"enabled", "disabled"}, dstate : B,
+                                   dkind : {"optional"}, den : {"absent"}]
+             ELSE {})
 ClassicCfgs ==
     {[kind |-> k, group |-> g.group, gopt |-> g.gopt, gen |-> g.gen,
-      dep |-> d.dep, dtype |-> d.dtype, dstate |-> d.dstate, dkind |-> d.dkind,
+      dep |-> d.dep, dtype |-> d.dtype, dstate |-> d.dstate, dkind |-> d.dkind, den |-> d.den,
       opt |-> o, en0 |-> e, devOn |-> dv] :
         k \in Kinds, g \in GroupParts, d \in DepParts, o \in B, e \in B, dv \in SUBSET Deviations}
 
@@ -255,9 +271,24 @@ ClassicLoad ==
 
 \* CheckOne = InputValidation.validate("p", v) on the validator of the InputFile: only meaningful for forms
 \* without an association (validate_data / set_data_value substitute the parent entity first, :295-298, :435-440)
-ClassicNext == \/ \E entry \in Entries \ {"Load"} : \E v \in ClassicValues(cfg.kind) :
-                     (entry = "CheckOne" => ~IdKind(cfg.kind)) /\ ClassicStep(entry, v)
-               \/ ClassicLoad
+\* Prime = before anything is asked of the object under test, ANOTHER valid ui.json with a multiSelect object
+\* form / multiSelect data form is loaded in the same process (InputFile(ui_json=other).data).  Validators
+\* share nothing: the object under test is unaffected (statelessness across validators, not only within one).
+ClassicPrime(m) ==
+    /\ depth = 0 /\ "Prime" \in Entries
+    /\ st' = st
+    /\ last' = [act |-> "Prime", arg |-> m, arg2 |-> "", out |-> "ok"]
+\* The entry points that validate the whole dictionary (Load, SetAll, Check) also judge the dependency form
+\* itself; a plain checkbox with "enabled": false is flattened to None (utils.py:40-41) and refused, so for
+\* den = "off" the parameter under test is judged through the per-parameter entry points only.
+EntryOK(entry) == (entry = "CheckOne" => ~IdKind(cfg.kind))
+                  /\ (cfg.den = "off" => entry \in {"SetKey", "CheckOne"})
+\* a configuration that lists "Prime" starts every behaviour with it: everything it exports is judged primed
+ClassicNext == IF "Prime" \in Entries /\ depth = 0
+               THEN \E m \in {"multiObject", "multiData"} : ClassicPrime(m)
+               ELSE \/ \E entry \in Entries \ {"Load", "Prime"} : \E v \in ClassicValues(cfg.kind) :
+                          EntryOK(entry) /\ ClassicStep(entry, v)
+                    \/ (cfg.den # "off" /\ ClassicLoad)
 \* Load validates the form as written in the file
 ClassicDeclared(c, s, act, v, v2) == Accepts(c, IF act = "Load" THEN c.en0 ELSE s.en, v)
 \* the property does not say in which representation an accepted identifier is kept: the stored value is
@@ -382,6 +413,38 @@ ParamNext == \/ \E v \in NewValues(cfg.kind) : ParamAssign(v) \/ ParamEnforce(v)
 ParamDeclared(c, s, act, v, v2) == AcceptsNew(c.kind, IF act = "Validate" THEN s.stored ELSE v)
 ParamVisible(c, s) == [stored |-> s.stored]
 
+\* ============================================================== new API: members of one FormParameter
+\* StringFormParameter("p"): members label, tooltip (StringParameter), main (BoolParameter) are assigned through
+\* FormValueAccess (descriptors.py:47-63) or register() (forms.py:495-516); a member is part of form() once it
+\* was assigned.  ValidateForm = FormParameter.validate() (forms.py:518-520): required_form_members
+\* {label, value} (forms.py:414).  A rejected member assignment leaves form() and its verdict unchanged.
+FormMembers == {"label", "tooltip", "main"}
+MemberValues == {"None", "Str", "Int", "True"}
+MemberHolds(m, v) == v = "None" \/ (IF m = "main" THEN Class(v) = "Bool" ELSE Class(v) = "Str")
+FormDeclared(c, s, act, v, v2) ==
+    CASE act \in {"SetMember", "RegisterMember"} -> MemberHolds(v, v2)
+      [] act = "Assign" -> v = "None" \/ Class(v) = "Str"
+      [] act = "ValidateForm" -> s.label # "absent"          \* "value" is always a member of form()
+FormSet(act, m, v) ==
+    LET ok == MemberHolds(m, v) IN
+    /\ st' = IF ok THEN [st EXCEPT ![m] = v] ELSE st
+    /\ last' = [act |-> act, arg |-> m, arg2 |-> v, out |-> IF ok THEN "ok" ELSE "rejected"]
+FormAssign(v) ==
+    LET ok == v = "None" \/ Class(v) = "Str" IN
+    /\ st' = IF ok THEN [st EXCEPT !.stored = v] ELSE st
+    /\ last' = [act |-> "Assign", arg |-> v, arg2 |-> "", out |-> IF ok THEN "ok" ELSE "rejected"]
+FormValidate ==
+    /\ st' = st
+    /\ last' = [act |-> "ValidateForm", arg |-> "", arg2 |-> "",
+                out |-> IF st.label # "absent" THEN "ok" ELSE "rejected"]
+FormNext == \/ \E m \in FormMembers, v \in MemberValues : FormSet("SetMember", m, v)
+            \/ \E v \in MemberValues : FormSet("RegisterMember", "label", v)
+            \/ \E v \in {"Str", "Int"} : FormAssign(v)
+            \/ FormValidate
+FormCfgs == {[kind |-> "StringForm", devOn |-> dv] : dv \in SUBSET Deviations}
+FormInit(c) == [label |-> "absent", tooltip |-> "absent", main |-> "absent", stored |-> "None"]
+FormVisible(c, s) == s
+
 \* ============================================================== new API: UIJson.validate (ui_json.py:122-126)
 \* parameters "obj" (ObjectFormParameter, Points) and "dat" (DataFormParameter, parent "obj"), both set at
 \* construction so that the pool holds required_workspace_object {obj, dat} and required_object_data
@@ -415,9 +478,9 @@ UjVisible(c, s) == [obj |-> s.obj, dat |-> s.dat]
 
 \* ============================================================== behaviour
 Cfgs == CASE Target = "classic" -> ClassicCfgs [] Target = "oneof" -> OneOfCfgs
-          [] Target = "param" -> ParamCfgsOK [] Target = "uijson" -> UjCfgs
+          [] Target = "param" -> ParamCfgsOK [] Target = "uijson" -> UjCfgs [] Target = "form" -> FormCfgs
 InitSt(c) == CASE Target = "classic" -> ClassicInit(c) [] Target = "oneof" -> OneOfInit(c)
-               [] Target = "param" -> ParamInit(c) [] Target = "uijson" -> UjInit(c)
+               [] Target = "param" -> ParamInit(c) [] Target = "uijson" -> UjInit(c) [] Target = "form" -> FormInit(c)
 Init == /\ cfg \in Cfgs
         /\ st = InitSt(cfg)
         /\ depth = 0
@@ -426,18 +489,19 @@ Next == /\ depth < MaxDepth
         /\ depth' = depth + 1
         /\ UNCHANGED cfg
         /\ CASE Target = "classic" -> ClassicNext [] Target = "oneof" -> OneOfNext
-             [] Target = "param" -> ParamNext [] Target = "uijson" -> UjNext
+             [] Target = "param" -> ParamNext [] Target = "uijson" -> UjNext [] Target = "form" -> FormNext
 Spec == Init /\ [][Next]_vars
 
 \* ============================================================== properties (C15)
 Declared(c, s, act, v, v2) ==
     CASE Target = "classic" -> ClassicDeclared(c, s, act, v, v2) [] Target = "oneof" -> OneOfDeclared(c, s, act, v, v2)
       [] Target = "param" -> ParamDeclared(c, s, act, v, v2) [] Target = "uijson" -> UjDeclared(c, s, act, v, v2)
+      [] Target = "form" -> FormDeclared(c, s, act, v, v2)
 Visible(c, s) ==
     CASE Target = "classic" -> ClassicVisible(c, s) [] Target = "oneof" -> OneOfVisible(c, s)
-      [] Target = "param" -> ParamVisible(c, s) [] Target = "uijson" -> UjVisible(c, s)
+      [] Target = "param" -> ParamVisible(c, s) [] Target = "uijson" -> UjVisible(c, s) [] Target = "form" -> FormVisible(c, s)
 \* actions whose answer is a verdict on a value (attribute assignment on a UIJson is not)
-IsVerdict(l) == l.act \notin {"SetObj", "SetDat", "UpdateObj", "UpdateDat"}
+IsVerdict(l) == l.act \notin {"SetObj", "SetDat", "UpdateObj", "UpdateDat", "Prime"}
 VerdictStep == IsVerdict(last') => ((last'.out = "ok") <=> Declared(cfg, st, last'.act, last'.arg, last'.arg2))
 RejectStep == (last'.out # "ok") => Visible(cfg, st') = Visible(cfg, st)
 \* the verdict is the declared one for the current form and value, whatever happened before
